@@ -79,6 +79,11 @@ def raise_fault(flavour, key):
         raise simmp.Killed()
     if flavour == "oserror":
         raise IsADirectoryError(21, "injected fault at %r" % (key,))
+    if flavour in ("oserror-eagain", "oserror-eio", "oserror-estale"):
+        # the errnos of "transient" I/O trouble (NFS / Lustre hiccups); here the trouble persists: the item fails every time
+        import errno as _errno
+        code = {"oserror-eagain": _errno.EAGAIN, "oserror-eio": _errno.EIO, "oserror-estale": _errno.ESTALE}[flavour]
+        raise OSError(code, "injected fault at %r" % (key,))
     if flavour == "oserror-noerrno":
         # what damaged inputs produce (PIL: "image file is truncated", astropy: "Empty or corrupt FITS file"): errno is None
         raise OSError("injected fault at %r" % (key,))
@@ -167,15 +172,18 @@ class MultiTanStage(Stage):
     """MultiTanProcessor.tile over a small FITS collection; the per-item hook is the sub-tiling's
     generate_populated_positions(), which the worker calls exactly once per input image."""
 
-    def __init__(self, ctx, n_images, shape=(50, 60)):
-        self.name = "multi_tan[%d images of %dx%d]" % (n_images, shape[1], shape[0])
+    def __init__(self, ctx, n_images, shape=(50, 60), mef=False):
+        self.name = "multi_tan[%d images of %dx%d%s]" % (n_images, shape[1], shape[0], ", as the HDUs of one file listed once per HDU" if mef else "")
         self.key = "multi_tan"
         self.n = n_images
+        self.mef = mef
+        self.hdu_index = None
         self.dir = ctx.mkdtemp("mtan")
         import numpy as np
         from astropy.io import fits
         from astropy.wcs import WCS
         self.paths = []
+        hdus = []
         for i in range(n_images):
             w = WCS(naxis=2)
             w.wcs.ctype = ["RA---TAN", "DEC--TAN"]
@@ -183,9 +191,17 @@ class MultiTanStage(Stage):
             w.wcs.cd = [[-1e-3, 0], [0, 1e-3]]
             w.wcs.crpix = [40.5 - 30 * i, 30.5]
             data = np.full(shape, float(i + 1), dtype=np.float32)
+            if mef:
+                hdus.append(fits.ImageHDU(data=data, header=w.to_header()))
+                continue
             p = os.path.join(self.dir, "in%d.fits" % i)
             fits.PrimaryHDU(data=data, header=w.to_header()).writeto(p)
             self.paths.append(p)
+        if mef:
+            p = os.path.join(self.dir, "all.fits")
+            fits.HDUList([fits.PrimaryHDU()] + hdus).writeto(p)
+            self.paths = [p] * n_images
+            self.hdu_index = list(range(1, n_images + 1))
 
     def items(self):
         return list(range(self.n))
@@ -197,7 +213,7 @@ class MultiTanStage(Stage):
         def run():
             import tempfile
             out = tempfile.mkdtemp(dir=stage.dir)
-            coll = collection.SimpleFitsCollection(stage.paths)
+            coll = collection.SimpleFitsCollection(stage.paths, hdu_index=stage.hdu_index) if stage.hdu_index else collection.SimpleFitsCollection(stage.paths)
             proc = multi_tan.MultiTanProcessor(coll)
             pio = pyramid.PyramidIO(out, default_format="fits")
             bld = builder.Builder(pio)
@@ -627,9 +643,19 @@ def run(ctx):
     mw = MultiWcsStage(ctx, 3)
     # images larger than the OS pipe (64 KiB): the feeder blocks in the middle of every write until a worker receives
     mtbig = MultiTanStage(ctx, 4, shape=(150, 160))
-    for st in (mt, mw, mtbig):
+    mtmef = MultiTanStage(ctx, 3, mef=True)
+    for st in (mt, mw, mtbig, mtmef):
         explore(ctx, st, 2, ["random", "flag-race", "starve-feeder", "eager-timeout"], 2 if q else 15)
     replay_stage(ctx, mtbig, 2, 15 if q else 150, 150, pipecap=0)
+    # (3a') the same stages when the dispatching process is PID 1 (a container's entry point): every worker's parent pid is 1
+    # from the start - which must not be mistaken for "orphaned"
+    real_getppid = os.getppid
+    os.getppid = lambda: 1
+    try:
+        for st in [LeafStage("toast depth 2", 2), TransformStage(1), mt]:
+            explore(ctx, st, 2, ["eager-timeout", "starve-feeder", "random"], 1 if q else 6)
+    finally:
+        os.getppid = real_getppid
     # (3b) a worker killed while it holds an item (negative exit status, e.g. the OOM killer): whatever else happens, the
     # stage must not RETURN NORMALLY with that item unprocessed (how the failure is reported is C19's subject)
     for st in [LeafStage("toast depth 2", 2), TransformStage(1), mt]:
